@@ -34,7 +34,7 @@ Srcs == Sources
 Vals == [k \in 1..Len(Values) |->
            IF Values[k] = "$B" THEN SymV("$B")
            ELSE LET r == Read(Values[k]) IN IF r.st = "ok" THEN r.v ELSE Assert(FALSE, <<"bad value", k, r>>)]
-ASSUME TLCSet(3, Vals)
+ASSUME TLCSet(3, Norm(Vals))
 
 \* ---------------------------------------------------------- implementation shape
 RECURSIVE SplitLines(_, _, _)
